@@ -47,6 +47,28 @@ def en2(disc_bv_true_is_1, payload0, payload1, ty):
     else: d = IV(z3.If(b.t, 1, 0), 'isize', 0, 1)
     return En(d, {0: payload0, 1: payload1}, ty)
 
+def struct_eq(ex, a, b):
+    a = ex.deref(a); b = ex.deref(b)
+    if isinstance(a, IV) and isinstance(b, IV): return ex.cmp_iv('Eq', a, b)
+    if isinstance(a, BV) and isinstance(b, BV): return ex.binop('Eq', a, b)
+    if isinstance(a, Agg) and isinstance(b, Agg) and len(a.f) == len(b.f):
+        r = mk_bool(True)
+        for x, y in zip(a.f, b.f): r = ex.binop('BitAnd', r, struct_eq(ex, x, y))
+        return r
+    if isinstance(a, En) and isinstance(b, En):
+        r = ex.cmp_iv('Eq', a.disc, b.disc)
+        for k in set(a.v) & set(b.v):
+            if not a.v[k] and not b.v[k]: continue
+            if len(a.v[k]) != len(b.v[k]): raise Inconclusive('struct_eq payload arity')
+            pe = mk_bool(True)
+            for x, y in zip(a.v[k], b.v[k]): pe = ex.binop('BitAnd', pe, struct_eq(ex, x, y))
+            # payload equality matters only when both are this variant
+            both = ex.binop('BitAnd', disc_is(a, k), disc_is(b, k))
+            imp = ex.binop('BitOr', (mk_bool(not both.c) if both.c is not None else BV(z3.Not(both.t))), pe)
+            r = ex.binop('BitAnd', r, imp)
+        return r
+    raise Inconclusive('struct_eq of %r %r' % (a, b))
+
 def closure_call(ex, callee, args, guard, site):
     m = re.match(r'^<\{closure@.*\} as Fn(?:Once|Mut)?<.*>>::call(?:_once|_mut)?$', callee)
     if m:
@@ -54,7 +76,7 @@ def closure_call(ex, callee, args, guard, site):
         return call_closure(ex, clo, tup.f, guard)
     return None
 
-PANIC_PREFIXES = ('core::panicking::', 'std::rt::begin_panic', 'core::result::unwrap_failed', 'core::option::unwrap_failed',
+PANIC_PREFIXES = ('core::panicking::', 'std::rt::begin_panic', 'std::rt::panic_display', 'std::rt::panic_', 'core::result::unwrap_failed', 'core::option::unwrap_failed',
                   'core::option::expect_failed', 'std::rt::panic_fmt', 'core::panicking::panic_fmt', 'panic_cold', 'core::slice::index::slice_',
                   'core::str::slice_error_fail', 'std::process::abort', 'panic_display', 'panic_explicit')
 
@@ -73,6 +95,22 @@ def _std_model(ex, c, args, guard, site):
         msg = ''
         if args and isinstance(args[0], StrLit): msg = args[0].b.decode('utf8', 'replace')[:60]
         ctx.panics.append((guard, site, msg or last)); return None, F
+    # the oracles' own floor division helpers (props/common.rs) are encoded directly as the floor pair (q, r);
+    # oracle_floor_helpers_holds checks the Rust definitions against that meaning
+    if last in ('floor_div', 'floor_mod', 'fdiv128', 'fmod128') and ('common::' in cs or cs == last) and not ex.opts.get('expand_floor_helpers'):
+        a, b = args; cc = b.const()
+        if cc is not None and cc > 0:
+            from .sym import fdiv
+            ty = a.ty
+            if a.const() is not None:
+                return mk_int(a.const() // cc if 'div' in last else a.const() % cc, ty), T
+            q, r, ql, qh = fdiv(ctx, a, cc)
+            return (IV(q, ty, ql, qh) if 'div' in last else IV(r, ty, 0, cc - 1)), T
+    if last == 'bind_days_to_date':
+        b = getattr(ctx, 'bindings', None)
+        if b is None: b = ctx.bindings = {}
+        b.setdefault('days_to_date', []).append((args[0], Agg([args[1], args[2], args[3]])))
+        return UNIT, T
     if cs.endswith('common::assume') or cs == 'assume':
         a = args[0]
         return UNIT, a.t
@@ -183,8 +221,16 @@ def _std_model(ex, c, args, guard, site):
     if m:
         a = args[0]; dst = m.group(1) if '::from' in cs else m.group(2)
         return ex.cast(a, dst), T
+    m = re.match(r'^<(%s) as From<bool>>::from$' % INT, cs)
+    if m: return ex.cast(args[0], m.group(1)), T
     m = re.match(r'^<(.+) as (From|Into)<(.+)>>::(from|into)$', cs)
     if m and m.group(1) == m.group(3): return args[0], T
+    # structural equality of std value types built from integers (Ordering, Option<..>, tuples)
+    m = re.match(r'^<&*((?:std::cmp::)?Ordering|Option<.*>|\(.*\)) as PartialEq>::(eq|ne)$', cs)
+    if m:
+        e = struct_eq(ex, ex.deref(args[0]), ex.deref(args[1]))
+        if m.group(2) == 'ne': e = mk_bool(not e.c) if e.c is not None else BV(z3.Not(e.t))
+        return e, T
     m = re.match(r'^<(%s|bool|char) as Clone>::clone$' % INT, cs)
     if m: return ex.deref(args[0]), T
     m = re.match(r'^<(%s) as Default>::default$' % INT, cs)
@@ -376,8 +422,13 @@ def _std_model(ex, c, args, guard, site):
             return Agg([q, IV(r.t * 10 ** 6, 'u32', r.lo * 10 ** 6, r.hi * 10 ** 6)], 'struct:Duration'), T
         if fn == 'new':
             s_, n = args
-            if n.hi >= 10 ** 9: raise Inconclusive('Duration::new with carry')
-            return Agg([s_, n], 'struct:Duration'), T
+            if n.hi < 10 ** 9: return Agg([s_, n], 'struct:Duration'), T
+            q = ex.binop('Div', n, mk_int(10 ** 9, 'u32')); r = ex.binop('Rem', n, mk_int(10 ** 9, 'u32'))
+            tot = IV(s_.t + q.t, 'u64', s_.lo + q.lo, s_.hi + q.hi)
+            if tot.hi > 2 ** 64 - 1:
+                ctx.panics.append((zand(guard, tot.t > 2 ** 64 - 1), site, 'overflow in Duration::new'))
+                return Agg([IV(tot.t, 'u64', tot.lo, 2 ** 64 - 1), r], 'struct:Duration'), tot.t <= 2 ** 64 - 1
+            return Agg([tot, r], 'struct:Duration'), T
         d = ex.deref(args[0])
         if fn == 'as_secs': return d.f[0], T
         if fn == 'subsec_nanos': return d.f[1], T
@@ -429,6 +480,12 @@ class Abstraction:
             t = uf(*[a.t for a in flat]) if flat else uf()
             ctx.side += [t >= lo, t <= hi]
             res.append(IV(t, ty, lo, hi))
+        if self.contract_last is None:
+            # uninterpreted callee: congruence only (result ranges are the type ranges)
+            self.uses += 1
+            ctx.abstractions_used = getattr(ctx, 'abstractions_used', set()) | {self.fn_last + ' (uninterpreted)'}
+            out = self.build(ex, args, res) if self.build else (res[0] if len(res) == 1 else Agg(res))
+            return out, T
         cands = ex.by_last.get(self.contract_last, [])
         if len(cands) != 1: raise Inconclusive('contract fn %s not found' % self.contract_last)
         cf = ex.fns[cands[0]]
@@ -447,3 +504,18 @@ class Abstraction:
         ctx.abstractions_used = getattr(ctx, 'abstractions_used', set()) | {self.fn_last}
         out = self.build(ex, args, res) if self.build else (res[0] if len(res) == 1 else Agg(res))
         return out, T
+
+class BoundAbstraction:
+    """answers calls of a crate function from bindings declared by the property function (bind_* marker calls)"""
+    def __init__(self, fn_last):
+        self.fn_last = fn_last; self.uses = 0
+    def applies(self, name): return True
+    def apply(self, ex, name, args, guard, site):
+        ctx = ex.ctx
+        a = ex.deref(args[0])
+        for key, res in getattr(ctx, 'bindings', {}).get(self.fn_last, []):
+            if z3.is_int_value(z3.simplify(a.t - key.t)) and z3.simplify(a.t - key.t).as_long() == 0:
+                self.uses += 1
+                ctx.abstractions_used = getattr(ctx, 'abstractions_used', set()) | {self.fn_last + ' (bound by the property function)'}
+                return res, T
+        raise Inconclusive('%s called on an argument without binding: %s' % (self.fn_last, a))
